@@ -278,6 +278,13 @@ func (c *lcPath) numD(v ssa.Value, d int) linForm {
 	case *ssa.ChangeType:
 		return c.numD(x.X, d+1)
 	case *ssa.BinOp:
+		// the index variable of a range loop (phi + 1) is one non-negative symbol
+		if ph, ok := x.X.(*ssa.Phi); ok && ph.Comment == "rangeindex" && x.Op == token.ADD {
+			if k, ok := constInt(x.Y); ok && k == 1 {
+				r.coef["rangeidx:"+normSym(v)] = 1
+				return r
+			}
+		}
 		a, b := func() linForm { return c.numD(x.X, d+1) }, func() linForm { return c.numD(x.Y, d+1) }
 		switch x.Op {
 		case token.ADD:
@@ -321,6 +328,10 @@ func (c *lcPath) numD(v ssa.Value, d int) linForm {
 				}
 				return rm
 			}
+		}
+	case *ssa.UnOp:
+		if x.Op == token.SUB {
+			return newLin().add(c.numD(x.X, d+1), -1)
 		}
 	case *ssa.Call:
 		if b, ok := x.Call.Value.(*ssa.Builtin); ok && b.Name() == "len" {
